@@ -1,5 +1,6 @@
 import FluentVerif.Proto.RoundTripHs
 import FluentVerif.Props.C13
+import FluentVerif.Proto.DecodeComplete
 /-! # C01 — round-trip fidelity of every message kind through both codec paths
 
 For every representable message `m` (explicit well-formedness hypotheses: lengths and counts below
@@ -100,5 +101,69 @@ example : Message.marshal [0x74] (-5) (.map (.cons [0x6b] (.arr (.cons (.uint 20
     (some { size := some 2, chunk := [0x61] }) =
     some [0x94, 0xa1, 0x74, 0xfb, 0x81, 0xa1, 0x6b, 0x92, 0xcc, 0xc8, 0xc0, 0x82, 0xa4, 0x73, 0x69, 0x7a, 0x65, 0x02,
       0xa5, 0x63, 0x68, 0x75, 0x6e, 0x6b, 0xa1, 0x61] := by decide
+
+/-! ### second half: every conforming encoding decodes (message level)
+
+The hypotheses describe the bytes only through the *specification parser*: `parse b` finds one
+array whose elements have the shape the Forward protocol gives the mode — the tag a string, the
+time any integer encoding of an int64 value (signed or unsigned, any width) or any extension
+encoding of type 0 with eight payload bytes, the record any plain object, the entries
+`[EventTime, record]` pairs, the optional last element nil or a map with non-empty string keys in
+any order, `size` an integer or nil, `chunk` / `compressed` strings, any further keys with values
+of any shape (`OptKVsOK`).  Conclusion: the decoder — either path, any receiver — returns exactly
+the message those objects denote and leaves exactly the rest. -/
+
+theorem C01_alt_Message (p : Path) (recv : Message) (b r tag : Bytes) (i : Int) (rec : Obj) (tail : Objs)
+    (h : parse b = some (.arr (.cons (.str tag) (.cons (.int i) (.cons rec tail))), r))
+    (hi : inInt64 i) (hrec : Obj.Plain rec) (ht : TailOK tail) :
+    Message.unmarshal p recv b = .ok { tag := tag, ts := i, record := rec, options := optOfTail tail } r :=
+  Message.unmarshal_complete p recv h hi hrec ht
+
+theorem C01_alt_MessageExt (p : Path) (recv : MessageExt) (b r tag d : Bytes) (rec : Obj) (tail : Objs)
+    (h : parse b = some (.arr (.cons (.str tag) (.cons (.ext 0 d) (.cons rec tail))), r))
+    (hd : d.length = 8) (hrec : Obj.Plain rec) (ht : TailOK tail) :
+    ∃ ts, decodeET d = some ts ∧
+      MessageExt.unmarshal p recv b = .ok { tag := tag, ts := ts, record := rec, options := optOfTail tail } r :=
+  MessageExt.unmarshal_complete p recv h hd hrec ht
+
+theorem C01_alt_Forward (p : Path) (recv : Forward) (b r tag : Bytes) (es tail : Objs)
+    (h : parse b = some (.arr (.cons (.str tag) (.cons (.arr es) tail)), r)) (hes : EntriesOK es) (ht : TailOK tail) :
+    Forward.unmarshal p recv b = .ok { tag := tag, entries := entriesOfObjs es, options := optOfTail tail } r :=
+  Forward.unmarshal_complete p recv h hes ht
+
+theorem C01_alt_Packed (p : Path) (recv : Packed) (b r tag s : Bytes) (tail : Objs)
+    (h : parse b = some (.arr (.cons (.str tag) (.cons (.bin s) tail)), r)) (ht : TailOK tail) :
+    Packed.unmarshal p recv b = .ok { tag := tag, stream := s, options := optOfTail tail } r :=
+  Packed.unmarshal_complete p recv h ht
+
+theorem C01_alt_Options (p : Path) (recv : Options) (b r : Bytes) (kvs : Objs)
+    (h : parse b = some (.map kvs, r)) (hk : OptKVsOK kvs) :
+    Options.unmarshal p recv b = .ok (foldOpts kvs recv) r :=
+  Options.unmarshal_complete p recv h hk
+
+/-- the hypotheses are met by an encoding the library itself never produces: str8 tag, uint32 time,
+map16 options with an unknown key whose value is an array, `size` as uint8, then trailing bytes -/
+def altExample : Bytes :=
+  [0x94, 0xd9, 0x01, 0x74, 0xce, 0x00, 0x00, 0x00, 0x05, 0x80,
+   0xde, 0x00, 0x02, 0xa1, 0x78, 0x92, 0x01, 0x02, 0xa4, 0x73, 0x69, 0x7a, 0x65, 0xcc, 0x03, 0xff]
+
+example : parse altExample =
+    some (.arr (.cons (.str [0x74]) (.cons (.int 5) (.cons (.map .nil)
+      (.cons (.map (.cons (.str [0x78]) (.cons (.arr (.cons (.int 1) (.cons (.int 2) .nil)))
+        (.cons (.str kSize) (.cons (.int 3) .nil))))) .nil)))), [0xff]) := by rfl
+
+example (p : Path) (recv : Message) :
+    Message.unmarshal p recv altExample =
+      .ok { tag := [0x74], ts := 5, record := .map .nil, options := some { size := some 3 } } [0xff] := by
+  have h : parse altExample =
+    some (.arr (.cons (.str [0x74]) (.cons (.int 5) (.cons (.map .nil)
+      (.cons (.map (.cons (.str [0x78]) (.cons (.arr (.cons (.int 1) (.cons (.int 2) .nil)))
+        (.cons (.str kSize) (.cons (.int 3) .nil))))) .nil)))), [0xff]) := by rfl
+  have := C01_alt_Message p recv altExample _ _ _ _ _ h (by decide) (by simp [Obj.Plain, Objs.PlainKV])
+    (by
+      simp only [TailOK, OptObjOK, OptKVsOK]
+      exact ⟨⟨[0x78], rfl, by decide, by simp [OptValOK, kSize, kChunk, kCompressed]⟩,
+             ⟨kSize, rfl, by decide, by simp only [OptValOK, if_true]; exact Or.inr ⟨3, rfl, by decide⟩⟩, trivial⟩)
+  simpa [optOfTail, optOfObj, foldOpts, applyOpt, kSize, kChunk, kCompressed] using this
 
 end FV
